@@ -228,7 +228,7 @@ func (g *Gen) RandDeletePath() Path {
 	// cut at a random depth >= 1 (never the root); keep list keys of kept elements
 	cut := 1 + g.pick(len(p))
 	q := append(Path{}, p[:cut]...)
-	if len(q[cut-1].Keys) > 0 && g.chance(1, 5) {
+	if len(q[cut-1].Keys) > 0 && g.chance(2, 5) {
 		// the list node itself, without keys: every entry of the list
 		q[cut-1] = PElem{Name: q[cut-1].Name}
 	}
